@@ -180,6 +180,8 @@ func (d *Driver) Enabled(e *mc.Env, s *mc.State) []mc.Op {
 		// a denom foreign to the pool: its escrow can receive it, but it must never count as a reserve
 		add("donate(eth->btc-pool)", opData{kind: "donate", who: "C", pool: "btc", side: "eth", amt: d.V.Amts[0]})
 		add("uniadd(C,btc,eth,a1)", opData{kind: "uniadd", who: "C", pool: "btc", side: "eth", amt: d.V.Amts[1], bound: "loose"})
+		// a holder parks some of the pool's own liquidity tokens on the pool's escrow account
+		add("donate(lpt->btc-pool)", opData{kind: "donate", who: "A", pool: "btc", side: "lpt", amt: d.V.Amts[1]})
 		if d.V.Params {
 			add("fee(1e-18)", opData{kind: "param", which: "fee", fee: sdkmath.LegacySmallestDec()})
 			add("fee(0.5)", opData{kind: "param", which: "fee", fee: sdkmath.LegacyNewDecWithPrec(5, 1)})
@@ -342,11 +344,15 @@ func (d *Driver) apply(e *mc.Env, s *mc.State, op mc.Op) []mc.Finding {
 	var fs []mc.Finding
 	switch od.kind {
 	case "donate":
-		_, esc, ok := lptOf(e, s, od.pool)
+		lptDenom, esc, ok := lptOf(e, s, od.pool)
 		if !ok {
 			return nil
 		}
-		s.Deliver(e, op.Name, mc.Send(mc.Addr(od.who), esc, mc.CI(od.side, od.amt)))
+		dn := od.side
+		if dn == "lpt" {
+			dn = lptDenom
+		}
+		s.Deliver(e, op.Name, mc.Send(mc.Addr(od.who), esc, mc.CI(dn, od.amt)))
 		return nil
 	case "param":
 		p := e.Coinswap.GetParams(s.Ctx)
